@@ -7,7 +7,6 @@ import (
 	"io"
 	"net/http"
 	"net/http/httptest"
-	"net/url"
 	"strings"
 
 	"github.com/emersion/go-webdav/carddav"
@@ -305,7 +304,7 @@ func emitCardMg(o *Out, r *RNG, reqPath string, mg *carddav.AddressBookMultiGet)
 		paths = []string{reqPath}
 	}
 	for _, p := range paths {
-		root.Add(E("DAV:", "href").T((&url.URL{Path: p}).String()))
+		root.Add(E("DAV:", "href").T(hrefSpellingPath(p)))
 	}
 	doc := randStyle(r).doc(root)
 	t, err := treeOfBytes([]byte(doc))
